@@ -43,3 +43,43 @@ pub(crate) fn emit(e: Event) {
         f(&e)
     }
 }
+
+// --- LLL step events --- //
+//
+// Emitted after every state change of the LLL working data (setup, add_row_to, mul_row, swap, next, back).
+// Ring elements are passed in their `Display` form; the data is formatted only when a hook is installed.
+
+#[derive(Clone, Debug)]
+pub struct LllStep { 
+    pub kind: &'static str,
+    pub i: usize, 
+    pub k: usize,
+    pub coeff: String,             // the multiplier of add_row_to / mul_row ("" otherwise)
+    pub step: usize,               // the working index after the change
+    pub target: Vec<Vec<String>>,  // the current basis (rows)
+    pub det: Vec<String>,
+    pub lambda: Vec<Vec<String>>,
+}
+
+type LllHook = Arc<dyn Fn(&LllStep) + Send + Sync>;
+
+static LLL_HOOK: RwLock<Option<LllHook>> = RwLock::new(None);
+
+pub fn set_lll_hook(f: LllHook) { 
+    *LLL_HOOK.write().unwrap() = Some(f);
+}
+
+pub fn clear_lll_hook() { 
+    *LLL_HOOK.write().unwrap() = None;
+}
+
+pub(crate) fn lll_hook_installed() -> bool { 
+    LLL_HOOK.read().unwrap().is_some()
+}
+
+pub(crate) fn emit_lll(e: LllStep) { 
+    let hook = LLL_HOOK.read().unwrap().clone();
+    if let Some(f) = hook { 
+        f(&e)
+    }
+}
